@@ -128,6 +128,10 @@ def check(case, stats: Stats) -> None:
                 raise Violation(f"Flask GET {path!r} -> {got1!r}, expected {exp!r} (expand({p + d + ident!r}) = {want!r})")
             if got2 != exp:
                 raise Violation(f"FastAPI GET {path!r} -> {got2!r}, expected {exp!r} (expand({p + d + ident!r}) = {want!r})")
+            # "redirects where expand points": the service and the converter's own expand must tell the same story
+            lib = conv.expand(p + d + ident)
+            if lib != want:
+                raise Violation(f"GET {path!r} redirects to {want!r} but converter.expand({p + d + ident!r}) = {lib!r}")
             owner = model.owner(p)
             klass = None
             if d in ident and d != "/":
